@@ -111,6 +111,8 @@ def run(chk):
         ("wrappers", lambda: K.k_wrappers(base, chk)),
     ]
     run_kernels(chk, items)
+    from sym import validate
+    validate.field_kernels(base, chk, 200 if chk.tier == "thorough" else 16)
     # closure of the invariant: the largest output bound of any operation is <= B
     chk.add(Ob("invariant closed: max output bound 2^51+19*2^13-1 (carry chains) and B (Mult32) <= B", "unsat" if 2**51 + 19 * 2**13 - 1 <= K.B else "sat", 0, [], "arithmetic"))
     chk.samples = [o.j() for o in chk.obs if "value" in o.name][:6]
